@@ -8,7 +8,8 @@ use swift_mt_message::messages::{MT103, MT199, MT202, MT205};
 use swift_mt_message::SwiftParser;
 
 const LINES: &[&str] = &["/REJT/", "/RETN/", "/REJT/12", "/RETN/99", "/RJT/", "/RET/", "/rejt/", "/retn/", "REJT", "/REJT", "REJT/", "/ACC/X",
-    "/COV/", "/COVER/", "/cov/", "/COVID/RELIEF", "/INS/COVEGB2LXXX", "/COV", "/RECOVER/X", "/COVER", "/BNF/REF/2024/REJT", "/BNF/REF/2024/RETN", "/INS/ABNANL2A", "//CONT /REJT/ X", "/INS/X/RETN/", "/BNF/TEXT", "/REJT/RETN/", "/RETURN/", "/REJECT/"];
+    "/COV/", "/COVER/", "/cov/", "/COVID/RELIEF", "/INS/COVEGB2LXXX", "/COV", "/RECOVER/X", "/COVER", "/BNF/REF/2024/REJT", "/BNF/REF/2024/RETN", "/INS/ABNANL2A", "//CONT /REJT/ X", "/INS/X/RETN/", "/BNF/TEXT", "/REJT/RETN/", "/RETURN/", "/REJECT/",
+    "RE YOUR REF 2024-0815/REJT/ PLS ADVISE", "REF/RETN/ X", "/RETN", "X/REJT"];
 const MURS: &[Option<&str>] = &[None, Some("REF123"), Some("REJT"), Some("RETN"), Some("rejt"), Some("retn"), Some("PROJECTREJT01"), Some("XRETNX"), Some("REJ T"), Some("REJTRETN")];
 /// what follows sequence A of an MT202 and whether it makes the message a cover payment (a customer party 50a / 59a in sequence B)
 const SEQB: &[(&str, bool)] = &[("", false), (":50K:/123\nJOHN DOE\n:59:/456\nJANE DOE\n", true), (":33B:USD1000,00\n", false), (":70:TEXT ONLY\n", false),
@@ -69,6 +70,19 @@ fn run_one(rep: &mut Report, plugins: &Plugins, code: u32, lines: &[&str], mur: 
         if r.is_err() { rep.fail(&format!("panic|MT{code}|classify"), json!({"input_hex": hex(&text)})); }
         return;
     };
+    // MT199's own predicates (documented: the narrative's first line opens with the code word between slashes) — the same
+    // look-alikes that MT103 / MT202 / MT205 refuse must be refused here
+    if code == 199 {
+        let t3 = text.clone();
+        if let Ok(Some((br, bt))) = std::panic::catch_unwind(move || SwiftParser::parse::<MT199>(&t3).ok().map(|m| (m.fields.is_reject_message(), m.fields.is_return_message()))) {
+            let first = lines.first().copied().unwrap_or("NARRATIVE");
+            let (er, et) = (first.starts_with("/REJT/"), first.starts_with("/RETN/"));
+            if br != er || bt != et {
+                rep.fail(&format!("classification|MT199|body-predicates {}", if br != er { "reject" } else { "return" }),
+                    json!({"type": 199, "input_hex": hex(&text), "first_line": first, "observed": {"is_reject_message": br, "is_return_message": bt}, "expected": {"is_reject_message": er, "is_return_message": et}}));
+            }
+        }
+    }
     let method = plugins.parse(&text).map(|x| x.1).unwrap_or_else(|e| format!("error:{}", e.chars().take(40).collect::<String>()));
     let (erej, eret, ecov, emethod) = spec(code, lines, mur, flag, seq_b, stp);
     rep.case(&shape, erej || eret || ecov || lines.iter().any(|l| l.to_ascii_uppercase().contains("RE")));
@@ -129,6 +143,24 @@ pub fn run(o: &Opts) -> Report {
             let lines: Vec<&str> = (0..k).map(|_| *rng.pick(LINES)).collect();
             let b23 = *rng.pick(&["CRED", "SPRI", "SSTD", "SPAY", "CRTS"]);
             run_one(&mut rep, &plugins, code, &lines, *rng.pick(MURS), *rng.pick(FLAGS), if code == 202 { rng.below(SEQB.len()) } else { 0 }, b23, rng.below(3) == 0);
+        }
+    }
+    // the reported method belongs to the message just parsed: a second parse_mt on the same dataflow message and target (a
+    // repaired message after a reject, a return after a normal one) reports the second message's method, not a stale one
+    {
+        let samples: Vec<(u32, Vec<&str>)> = vec![(103, vec!["/REJT/12"]), (103, vec![]), (103, vec!["/RETN/99"]), (202, vec!["/REJT/"]), (202, vec![]), (205, vec!["/COV/"]), (205, vec!["/RETN/"]), (205, vec![])];
+        for (c1, l1) in &samples {
+            for (c2, l2) in &samples {
+                if c1 != c2 { continue; }
+                let t1 = envelope(*c1, None, None, &body(*c1, l1, 0, "CRED", false));
+                let t2 = envelope(*c2, None, None, &body(*c2, l2, 0, "CRED", false));
+                let single = plugins.parse(&t2).map(|x| x.1).unwrap_or_else(|e| format!("error:{}", e.chars().take(40).collect::<String>()));
+                let twice = plugins.parse_twice(&t1, &t2).unwrap_or_else(|e| format!("error:{}", e.chars().take(40).collect::<String>()));
+                rep.case(&format!("twice {c1} {l1:?} then {l2:?}"), true);
+                if single != twice {
+                    rep.fail(&format!("classification|MT{c2}|stale method after a second parse"), json!({"type": c2, "first_hex": hex(&t1), "input_hex": hex(&t2), "method_alone": single, "method_after_first": twice}));
+                }
+            }
         }
     }
     rep
